@@ -26,7 +26,8 @@ LEVEL_TEXT = ("Theorems, all for every input/history: Griffe's reversed/zip_long
               "definition equals CPython's; handle_function: names do not interfere, every implementation carries exactly the overloads declared since the "
               "previous implementation of its name, a re-binding definition resets the name (if/else branches), accessors keep the property; for every body "
               "tagged live/dead that the decidable check dead_ok accepts, the dead statements are invisible in Griffe's flow-insensitive result, hence "
-              "the whole body agrees with CPython executing its live part; the single traversal over nested class bodies equals the per-scope visits; for "
+              "the whole body agrees with CPython executing its live part; containers of different function objects are independent under every history; a "
+              "stub-merged signature keeps the definition's names/kinds/defaults and takes every annotation by NAME; the single traversal over nested class bodies equals the per-scope visits; for "
               "every body CPython executes, CPython's namespace and overload registry equal Griffe's members and the concatenation of the attached "
               "overload lists plus the pending ones. Models tied to the code by a translator, exhaustive-small + random differential runs and "
               "per-object observation through an extension.")
@@ -39,7 +40,7 @@ LEVEL_NOTE = ("Trusted: Coq kernel, extraction, the translator's whitelist, the 
               "CPython's typing registry is cumulative per qualified name: agreement of a *redefined* overloaded name with typing.get_overloads "
               "is stated as a decomposition theorem, not as equality. All theorems are closed under the global context.")
 MODEL = ("Model.C02_run", "run_C02")
-COQ_TARGETS = ["Model/C02_run.vo", "Proofs/C02_params.vo", "Proofs/C02_container.vo", "Proofs/C02_scope.vo", "Proofs/C02_tree.vo", "Proofs/C02_flow.vo"]
+COQ_TARGETS = ["Model/C02_run.vo", "Proofs/C02_params.vo", "Proofs/C02_container.vo", "Proofs/C02_scope.vo", "Proofs/C02_tree.vo", "Proofs/C02_flow.vo", "Proofs/C02_multi.vo"]
 TRANSLATOR_NAME = "harness/translate/c02_tables.py"
 RULE = ("signatures: exhaustive count vectors (posonly,args,vararg?,kwonly,kwarg?,#defaults,kw-default mask) with each list <=3 "
         "(quick: <=2 plus a seeded sample of <=3), x annotations on/off, rotating contexts def/async def/method/lambda default; seeded random "
@@ -49,7 +50,9 @@ RULE = ("signatures: exhaustive count vectors (posonly,args,vararg?,kwonly,kwarg
         "stacked, nested in if/try blocks), idiomatic bodies with repeated overload groups and property blocks per name in sequence and in "
         "if/else branches; trees: a module body plus (nested) classes whose bodies share the member names; lambdas used as defaults (every vector <=2 as the "
         "lambda's own parameter list, structured and as text); container: random operation sequences (get/set/del by name and index, in, len, iter, add) with probes after each "
-        "mutation, from visited definitions and from directly constructed (possibly duplicate) contents. "
+        "mutation, from visited definitions and from directly constructed (possibly duplicate) contents; several function objects of one module "
+        "(half parameterless) under operations addressed to one of them, re-visited afterwards; modules loaded with stubs (congruent, pass-through, "
+        "independent, partially annotated signatures); body cases whose module re-binds overload/property spellings to local decorators. "
         "non-trivial = has a default or more than one kind (signatures), a decorator (bodies), a mutation (container); distinct by canonical value")
 TRUSTED = ["abstraction: harness walks ast.parse(source).args into the model's `arguments` record and maps annotation/default atoms A<k>/<k> to integers",
            "abstraction: definitions/binders of a generated body in source order with def-line ids; decorator callable paths by construction of the source",
@@ -818,6 +821,156 @@ def check_container(ctx, n, use_model=True, cases=None):
     return False
 
 
+# ---- several function objects: their containers are independent, also across visits
+def check_multi_containers(ctx, n, use_model=True):
+    import griffe
+    rng = ctx.rng
+    cases = []
+    for _ in range(n):
+        sigs = []
+        for k in range(rng.randint(2, 4)):
+            if rng.random() < 0.5:
+                sigs.append("")                       # parameterless definitions: the visitor builds an empty container for each
+            else:
+                sigs.append(render_sig(random_vector(rng, 2), False))
+        src = "".join(f"{'async ' if rng.random() < 0.2 else ''}def h{k}({s}): ...\n" for k, s in enumerate(sigs))
+        src += "class K:\n    @staticmethod\n    def s(): ...\n    def m(self): ...\nclass E: pass\n"
+        names = [f"h{k}" for k in range(len(sigs))] + ["K.s", "K.m", "E"]
+        ios = []
+        for _ in range(rng.randint(1, 5)):
+            i = rng.randrange(len(names))
+            r = rng.random()
+            if r < 0.5:
+                ios.append([i, ["add", random_enc_param(rng, rng.choice(POOL))]])
+            elif r < 0.75:
+                nm = rng.choice(POOL)
+                ios.append([i, ["set", nm, random_enc_param(rng, nm)]])
+            else:
+                ios.append([i, ["del", rng.choice([0, -1, rng.choice(POOL)])]])
+            ios.extend([j, ["iter"]] for j in range(len(names)))
+        cases.append((src, names, ios))
+
+    def containers(src, names):
+        mod = griffe.visit("m", filepath=None, code=src)
+        out = []
+        for nm in names:
+            obj = mod
+            for part in nm.split("."):
+                obj = obj.members[part]
+            out.append(obj.parameters)          # for class E (no __init__): Class.parameters
+        return out
+    inits, conts = [], []
+    for src, names, ios in cases:
+        cs = containers(src, names)
+        conts.append(cs)
+        inits.append([[enc_griffe_param(p) for p in c] for c in cs])
+    m_out = ctx.model([["multi", init, ios] for (src, names, ios), init in zip(cases, inits)]) if use_model else [None] * len(cases)
+    for (src, names, ios), init, cs, mo in zip(cases, inits, conts, m_out):
+        if use_model:
+            ctx.case({"multi_container": src, "ops": [io for io in ios if io[1][0] != "iter"]}, True)
+            ctx.observe("multi_empty_containers", sum(1 for c in init if not c))
+        else:
+            ctx.evaluations += 1
+        refs = [RefList(c) for c in init]
+        got, exp = [], []
+        for i, op in ios:
+            got.append(impl_step(cs[i], op))
+            exp.append(refs[i].step(op))
+        final_g = [[enc_griffe_param(p) for p in c] for c in cs]
+        final_r = [r.l for r in refs]
+        if use_model and mo != [got, final_g]:
+            ctx.tie_failure("correspondence", "store of containers (model) vs the containers of several function objects",
+                            {"model": mo, "impl": [got, final_g]}, {"source": src, "ops": ios})
+        bad = None
+        if got != exp or final_g != final_r:
+            k = next((j for j, (a, b) in enumerate(zip(got, exp)) if a != b), len(ios) - 1)
+            bad = {"step": k, "container": names[ios[k][0]], "op": ios[k][1], "griffe": got[k], "independent_lists": exp[k]}
+        else:
+            # a later visit of the same source is not affected by what was done to the objects of the earlier one
+            again = [[enc_griffe_param(p) for p in c] for c in containers(src, names)]
+            if again != init:
+                bad = {"later_visit": dict(zip(names, again)), "first_visit": dict(zip(names, init))}
+        if bad:
+            ctx.property_failure({"source": src, "containers": names, "history": [[names[i], op] for i, op in ios if op[0] != "iter"]}, bad)
+            if not use_model:
+                return True
+        ctx.count("multi_container_cases")
+    return False
+
+
+# ---- stub-merged signatures: the definition's names/kinds/defaults, each parameter annotated as the stub annotates that NAME
+def check_stub_merge(ctx, n, use_model=True):
+    import re
+    import griffe
+    rng = ctx.rng
+    root = ctx.scratch / "stubs"
+    cases = []
+    for idx in range(n):
+        v1 = random_vector(rng, 3)
+        r = rng.random()
+        if r < 0.3:
+            v2 = v1                                                            # congruent
+        elif r < 0.5:
+            v1 = (rng.randint(0, 1), rng.randint(0, 2), 1, 0, 1, 0, 0)         # pass-through implementation, spelled-out stub
+            v2 = random_vector(rng, 3)
+        else:
+            v2 = random_vector(rng, 3)
+        sig1 = render_sig(v1, rng.random() < 0.3)
+        sig2 = re.sub(r"A(\d+)", lambda m: f"A{int(m.group(1)) + 20}", render_sig(v2, True))
+        if rng.random() < 0.3:                                                 # the stub leaves some parameters unannotated
+            sig2 = re.sub(r": A2\d\b", "", sig2, count=1)
+        in_class = bool(idx & 1)
+        ind = "    " if in_class else ""
+        head = "class C:\n" if in_class else ""
+        py = f"{head}{ind}def f({sig1}): ...\n"
+        pyi = f"{head}{ind}def f({sig2}) -> R0: ...\n"
+        cases.append((py, pyi, ("C", "f") if in_class else ("f",)))
+    pre = []
+    for py, pyi, path in cases:
+        a = [enc_griffe_param(p) for p in griffe_object(py, path).parameters]
+        b = [enc_griffe_param(p) for p in griffe_object(pyi, path).parameters]
+        pre.append((a, b))
+    m_out = ctx.model([["merge", a, b] for a, b in pre]) if use_model else [None] * len(cases)
+    for k, ((py, pyi, path), (a, b), mo) in enumerate(zip(cases, pre, m_out)):
+        d = root / f"c{k}"
+        d.mkdir(parents=True, exist_ok=True)
+        (d / "sm.py").write_text(py)
+        (d / "sm.pyi").write_text(pyi)
+        if use_model:
+            ctx.case({"stub_merge": {"py": py, "pyi": pyi}}, a != b)
+            ctx.observe("stub_congruent", [x[0] for x in a] == [x[0] for x in b])
+        else:
+            ctx.evaluations += 1
+        try:
+            obj = griffe.load("sm", search_paths=[str(d)])
+            for nm in path:
+                obj = obj.members[nm]
+            impl = ["ok", [enc_griffe_param(p) for p in obj.parameters], None if obj.returns is None else str(obj.returns)]
+        except Exception as e:  # noqa: BLE001
+            impl = ["err", type(e).__name__, None]
+        # CPython: the runtime signature of the definition; annotations as the stub gives them for the same name
+        rt, st = exec_ns(py), exec_ns(pyi)
+        f_rt, f_st = rt[path[0]], st[path[0]]
+        for nm in path[1:]:
+            f_rt, f_st = getattr(f_rt, nm), getattr(f_st, nm)
+        stub_params = inspect.signature(f_st).parameters
+        exp = []
+        for p in inspect.signature(f_rt).parameters.values():
+            e = enc_inspect_param(p)
+            if p.name in stub_params:
+                e[1] = enc_inspect_param(stub_params[p.name])[1]
+            exp.append(e)
+        if use_model and (mo[0] != impl[1] or mo[1] != impl[1]):
+            ctx.tie_failure("correspondence", "merge_stub_parameters / merged_spec (model) vs griffe.load of a module with its stubs",
+                            {"model": mo, "impl": impl}, {"py": py, "pyi": pyi})
+        if impl != ["ok", exp, "R0"]:
+            ctx.property_failure({"py": py, "pyi": pyi, "path": list(path)}, {"griffe_merged": impl, "runtime_signature_with_stub_annotations_by_name": exp})
+            if not use_model:
+                return True
+        ctx.count("stub_merge_cases")
+    return False
+
+
 # =====================================================================================================================
 # bodies: overloads, properties, accessors, redefinitions
 # =====================================================================================================================
@@ -834,7 +987,38 @@ ROLE_OVERLOAD = ("overload", "overload", "typing.overload", "typing.overload", "
 ROLE_PROPERTY = ("property", "functools.cached_property", "cached_property")
 
 
+# spellings that the module at hand binds to a LOCAL pass-through decorator (`def overload(f): return f`) instead of the
+# typing / builtin object: set per case (split_stream); the module path stays "m", so successive visits in this
+# process see the same dotted path with different meanings -- a visit must not depend on earlier ones
+_LOCAL: frozenset = frozenset()
+LOCALIZABLE = {"overload": ("from typing import overload", "def overload(f): return f"),
+               "ovx": ("from typing_extensions import overload as ovx", "def ovx(f): return f"),
+               "cached_property": ("from functools import cached_property", "def cached_property(f): return f"),
+               "property": (None, "def property(f): return f")}
+
+
+def split_stream(stream):
+    """'random@overload,property' -> ('random', frozenset({'overload', 'property'})); also makes it the current environment."""
+    global _LOCAL
+    base, _, env = stream.partition("@")
+    _LOCAL = frozenset(x for x in env.split(",") if x)
+    return base, _LOCAL
+
+
+def prelude_lines():
+    lines = []
+    for l in PRELUDE:
+        for name in _LOCAL:
+            imp, local = LOCALIZABLE[name]
+            if imp and imp in l:
+                l = l.replace(imp, "pass")
+        lines.append(l)
+    return lines + [LOCALIZABLE[name][1] for name in sorted(_LOCAL)]
+
+
 def deco_role(d, name):
+    if d in _LOCAL:
+        return None
     if d in ROLE_OVERLOAD:
         return "overload"
     if d in ROLE_PROPERTY:
@@ -981,7 +1165,7 @@ def idiomatic_stmts(rng, scope):
 
 def render_body(stmts, scope):
     """Returns (source, flattened items in source order, executed items); item = ('def'|'bind', line, name, decos, executed)."""
-    lines = list(PRELUDE)
+    lines = prelude_lines()
     base = ""
     if scope == "class":
         lines.append("class C:")
@@ -1047,7 +1231,7 @@ def model_items_at(items, spath, only_live=False):
             paths = []
             for d in decos:
                 if d in DECO_PATHS:
-                    paths.append(["path", DECO_PATHS[d]])
+                    paths.append(["path", f"m.{d}" if d in _LOCAL else DECO_PATHS[d]])
                 else:
                     paths.append(["path", f"{spath}.{d}"])       # <name>.setter / <name>.deleter
             out.append(["def", line, name, f"{spath}.{name}", paths])
@@ -1292,6 +1476,7 @@ def tree_case(rng):
 
 def render_tree(stmts):
     """-> source, {scope path: items}, model tree, {scope path: (kind, parent holder path)}"""
+    split_stream("")
     lines = list(PRELUDE)
     scopes = {"m": []}
 
@@ -1526,10 +1711,16 @@ def body_cases(ctx, n_random, n_idiom, n_function):
     cases = []
     for i in range(n_random):
         scope = "class" if i % 3 else "module"
-        cases.append(("random", scope, random_stmts(rng, rng.randint(1, 8), scope)))
+        env = ""
+        if rng.random() < 0.25:
+            env = "@" + ",".join(sorted(rng.sample(sorted(LOCALIZABLE), rng.randint(1, 3))))
+        cases.append(("random" + env, scope, random_stmts(rng, rng.randint(1, 8), scope)))
     for i in range(n_idiom):
         scope = "class" if i % 2 else "module"
-        cases.append(("idiom", scope, idiomatic_stmts(rng, scope)))
+        env = ""
+        if rng.random() < 0.2:          # accessors need the real property: only the overload spellings are re-bound here
+            env = "@" + ",".join(sorted(rng.sample(["overload", "ovx"], rng.randint(1, 2))))
+        cases.append(("idiom" + env, scope, idiomatic_stmts(rng, scope)))
     for i in range(n_function):
         cases.append(("function-scope", "function", random_stmts(rng, rng.randint(1, 6), "module")))
     return cases
@@ -1548,15 +1739,22 @@ def flat_defs(stmts):
 
 def check_bodies(ctx, n_random, n_idiom, n_function, use_model=True, cases=None):
     cases = cases if cases is not None else body_cases(ctx, n_random, n_idiom, n_function)
-    rendered = [render_body(st, sc) for _, sc, st in cases]
+    def in_env(stream, f):
+        split_stream(stream)
+        return f()
+    rendered = [in_env(s, lambda: render_body(st, sc)) for s, sc, st in cases]
     if use_model:
-        m_scope = ctx.model([["items", c[1], model_items(items, c[1])] for c, (src, items) in zip(cases, rendered)])
-        m_cpy = ctx.model([["cpy", model_items(items, c[1], only_live=True)] for c, (src, items) in zip(cases, rendered)])
-        m_flow = ctx.model([["flow", [[1 if it[4] else 0, mi] for it, mi in zip(items, model_items(items, c[1]))]] for c, (src, items) in zip(cases, rendered)])
+        m_scope = ctx.model([in_env(c[0], lambda: ["items", c[1], model_items(items, c[1])]) for c, (src, items) in zip(cases, rendered)])
+        m_cpy = ctx.model([in_env(c[0], lambda: ["cpy", model_items(items, c[1], only_live=True)]) for c, (src, items) in zip(cases, rendered)])
+        m_flow = ctx.model([in_env(c[0], lambda: ["flow", [[1 if it[4] else 0, mi] for it, mi in zip(items, model_items(items, c[1]))]])
+                            for c, (src, items) in zip(cases, rendered)])
     else:
         m_scope = m_cpy = [None] * len(cases)
         m_flow = [None] * len(cases)
     for (stream, scope, stmts), (src, items), mo, mc, mf in zip(cases, rendered, m_scope, m_cpy, m_flow):
+        stream, env = split_stream(stream)
+        if use_model:
+            ctx.observe("decorator_environment", ",".join(sorted(env)) or "-")
         defs = list(flat_defs(stmts))
         if use_model:
             ctx.case({"stream": stream, "scope": scope, "body": stmts}, any(d[2] for d in defs))
@@ -1581,6 +1779,7 @@ def check_bodies(ctx, n_random, n_idiom, n_function, use_model=True, cases=None)
             impl, final = ["err", type(e).__name__], {}
             ctx.property_failure({"source": src}, {"griffe": "visit raised " + repr(e)})
             if not use_model:
+                split_stream("")
                 return True
             continue
         if use_model:
@@ -1646,7 +1845,9 @@ def check_bodies(ctx, n_random, n_idiom, n_function, use_model=True, cases=None)
         if bad:
             ctx.property_failure({"source": src, "scope": scope}, bad)
             if not use_model:
+                split_stream("")
                 return True
+    split_stream("")
     return False
 
 
@@ -1696,7 +1897,9 @@ def explore(ctx):
     check_signatures(ctx, [random_vector(ctx.rng) for _ in range(ctx.budget(300, 4000))], "random<=8")
     bound = [v for v in vectors(2)] if ctx.quick else vecs
     check_bound_views(ctx, bound + [random_vector(ctx.rng, 5) for _ in range(ctx.budget(200, 2000))])
+    check_multi_containers(ctx, ctx.budget(300, 3000))          # first of the streams that mutate containers: its failures carry the history
     check_container(ctx, ctx.budget(700, 8000))
+    check_stub_merge(ctx, ctx.budget(200, 2000))
     if not ctx.quick:
         sample = [["params", abstract_arguments(find_def(ast.parse(f"def f({render_sig(v, True)}): ..."), ("f",)).args)] for v in ctx.rng.sample(vecs, 20)]
         for origin, init, _params, ops in container_cases(ctx, 12):
@@ -1725,7 +1928,11 @@ def search(ctx):
         return
     if check_bound_views(ctx, list(vectors(2)) + [random_vector(ctx.rng, 5) for _ in range(1000)], use_model=False):
         return
-    check_container(ctx, 4000, use_model=False)
+    if check_container(ctx, 4000, use_model=False):
+        return
+    if check_stub_merge(ctx, 600, use_model=False):
+        return
+    check_multi_containers(ctx, 1500, use_model=False)
 
 
 def replay(ctx, data):
